@@ -173,6 +173,7 @@ struct InternalDelphiLogicalLineParser<'a, 'b> {
     generic_level: u32,
     attributed_directives: &'a mut FxHashSet<usize>,
     last_finished_line: LogicalLineRef,
+    eof_allowed: bool,
 }
 use InternalDelphiLogicalLineParser as LLP;
 impl<'a, 'b> InternalDelphiLogicalLineParser<'a, 'b> {
@@ -200,6 +201,7 @@ impl<'a, 'b> InternalDelphiLogicalLineParser<'a, 'b> {
             generic_level: 0,
             attributed_directives,
             last_finished_line: 0,
+            eof_allowed: false,
         }
     }
     fn parse(mut self) -> Vec<LocalLogicalLine> {
@@ -213,6 +215,7 @@ impl<'a, 'b> InternalDelphiLogicalLineParser<'a, 'b> {
         );
 
         self.finish_logical_line();
+        self.eof_allowed = true;
         self.next_token(); // Eof
         self.set_logical_line_type(LLT::Eof);
         self.finish_logical_line();
@@ -1878,6 +1881,14 @@ impl<'a, 'b> InternalDelphiLogicalLineParser<'a, 'b> {
     }
 
     fn next_token(&mut self) {
+        if !self.eof_allowed
+            && self.get_current_token_index().is_some()
+            && self.get_current_token_type().is_none()
+        {
+            // The Eof token belongs only to the final Eof line; an unfinished construct at the
+            // end of the input must not absorb it.
+            return;
+        }
         loop {
             if let Some(token_index) = self.get_current_token_index() {
                 self.get_current_logical_line_mut().tokens.push(token_index);
